@@ -82,6 +82,12 @@ theorem Tri.skip {n : Nat} {eof : Option E} {k : Unit → Prog E α} {pos : Nat}
   | ok p' => exact h p' hr
   | error e => exact Tri.mapEof_tri
 
+theorem Tri.readUpTo {n : Nat} {k : Bytes → Prog E α} {pos : Nat} {Q : α → Nat → Prop}
+    (h : Tri (idealOps s kind) (k (s.read pos (min n (s.len - pos)))) (pos + min n (s.len - pos)) Q) :
+    Tri (idealOps s kind) (.readUpTo n k) pos Q := by
+  unfold Tri at *
+  simpa only [Prog.runF, idealOps] using h
+
 /-- a successful skip lands exactly `n` further (a seek-based skip may land past the end; it never wraps) -/
 theorem ideal_skip_exact {pos n pos' : Nat} (h : (idealOps s kind).skip pos n = .ok pos') : pos' = pos + n := by
   simp only [idealOps] at h
